@@ -46,3 +46,31 @@ package keeper
 //@   ensures [keyorder] i != j ==> (result <==> attr[i].Key < attr[j].Key)
 
 //@ property C07 := (Keeper).CreateOrUpdateProviderAttributes$1#*, (Keeper).DeleteProviderAttributes$1#*
+
+// ---- C16: every successful change of an attestation is announced by exactly one event ----
+//@ import sdk "github.com/cosmos/cosmos-sdk/types"
+// (A-LIB) the reordering done by sort.SliceStable is dropped here (no clause below speaks about the order of the list)
+//@ extern "sort".SliceStable(x, less)
+//@   pure
+//@ func (Keeper).CreateOrUpdateProviderAttributes
+//@   modifies ghost KVhas, ghost KVval, ghost G, ghost EvN, ghost EvLog
+//@   loop 1 modifies kv[*]
+//@   loop 1 invariant 0 <= iter && EvN == old(EvN) && EvLog == old(EvLog)
+//@   loop 2 modifies kv[*]
+//@   loop 2 invariant 0 <= iter && EvN == old(EvN) && EvLog == old(EvLog)
+//@   loop 3 modifies attr[**]
+//@   loop 3 invariant EvN == old(EvN) && EvLog == old(EvLog) && 0 <= len(attr) && len(attr) <= cap(attr) && (arr(attr) == nil || freshloop(attr) || arr(attr) == atloop(arr(attr)))
+//@   ensures [announced] result == nil ==> EvN == old(EvN) + 1
+//@   ensures [quiet] result != nil ==> EvN == old(EvN)
+//@ func (Keeper).DeleteProviderAttributes
+//@   modifies ghost KVhas, ghost KVval, ghost G, ghost EvN, ghost EvLog
+//@   loop 1 modifies kv[*]
+//@   loop 1 invariant 0 <= iter && EvN == old(EvN) && EvLog == old(EvLog)
+//@   loop 2 modifies kv[*]
+//@   loop 2 invariant 0 <= iter && EvN == old(EvN) && EvLog == old(EvLog)
+//@   loop 3 modifies attr[**]
+//@   loop 3 invariant EvN == old(EvN) && EvLog == old(EvLog) && 0 <= len(attr) && len(attr) <= cap(attr) && (arr(attr) == nil || freshloop(attr) || arr(attr) == atloop(arr(attr)))
+//@   ensures [announced] result == nil ==> EvN == old(EvN) + 1
+//@   ensures [quiet] result != nil ==> EvN == old(EvN)
+
+//@ property C16 := (Keeper).CreateOrUpdateProviderAttributes#*, (Keeper).DeleteProviderAttributes#*
